@@ -207,9 +207,7 @@ func (e *Enc) siteClosure(fr *Frame, mc *ssa.MakeClosure, fv *FuncV) {
 				if _, isGo := r.(*ssa.Go); isGo {
 					direct = false
 				}
-				if _, isDefer := r.(*ssa.Defer); isDefer {
-					direct = false
-				}
+				// deferred closures are encoded inline where the defers run
 			default:
 				direct = false
 			}
